@@ -81,11 +81,11 @@ theorem Stream.keepTail_len {s : Stream γ} {data chunk : Bytes} {consumed : Nat
     omega
 
 /-- the guarded dispatcher -/
-def World.envG (w : World γ) (s0 : String) : Env (Disp γ) := ⟨w.tbl, w.tags, guardArgs (argGuard s0) (dispOps w.ctl)⟩
+def World.envArgs (w : World γ) (s0 : String) : Env (Disp γ) := ⟨w.tbl, w.tags, guardArgs (argGuard s0) (dispOps w.ctl)⟩
 
 /-- the outcome of `parse_args_valid` for one `Parser.parse` call of the stream -/
 def ParseArgsOK (w : World γ) (s0 : String) (inp : Bytes) (last : Bool) (p : Parser (Disp γ)) : Prop :=
-  Parser.parse (w.envG s0) inp last p = Parser.parse w.env inp last p ∧
+  Parser.parse (w.envArgs s0) inp last p = Parser.parse w.env inp last p ∧
   (Parser.parse w.env inp last p).2 ≠ .error (.panic s0) ∧
   (Parser.parse w.env inp last p).2 ≠ .error (.panic rawSite)
 
